@@ -35,7 +35,7 @@ def prepare():
     _S['harness'] = harness
 
 
-TOPOS = ['chain', 'tee', 'rejoin', 'balance']
+TOPOS = ['chain', 'tee', 'rejoin', 'balance', 'watch']
 
 
 def build_nodes(case):
@@ -58,6 +58,11 @@ def build_nodes(case):
                  {'id': 'B', 'sources': ['S'], 'beh': {'kind': 'xf', 'work': [w[2]], 'topics': ['other']}, 'required': ['K'] if req else None},
                  {'id': 'K', 'sources': ['A', 'B'], 'nout': 0, 'beh': {'kind': 'sink', 'work': [0]}}]
         sinks, required_of = ['K'], {'A': 'S', 'B': 'S', 'K': 'A'}
+    elif case['topo'] == 'watch':
+        # a viewer attached with '?' is the source's only consumer (a Webvis on a camera)
+        nodes = [{'id': 'S', 'beh': {'kind': 'src', 'n': N, 'work': [3 if case.get('fast_src') else w[0]]}},
+                 {'id': 'W', 'sources': ['S?'], 'nout': 0, 'beh': {'kind': 'sink', 'work': [0 if case.get('fast_src') else w[2]]}}]
+        sinks, required_of = ['W'], {}
     else:
         nodes = [{'id': 'S', 'beh': {'kind': 'src', 'n': N, 'work': [w[0]]}, 'nout': 2, 'obal': True, 'required': ['W0', 'W1'] if req else None},
                  {'id': 'W0', 'sources': [{'from': 'S', 'k': 0}], 'beh': {'kind': 'xf', 'work': [w[1]]}, 'required': ['K'] if req else None},
@@ -76,6 +81,7 @@ def case_strategy(draw, tier):
         'topo': topo, 'required': draw(st.booleans()),
         'work': [draw(st.sampled_from([20, 40, 80])), draw(st.sampled_from([0, 10, 60, 150])), draw(st.sampled_from([0, 10, 60, 150]))],
         'victim': draw(st.integers(0, 3)),
+        'fast_src': draw(st.booleans()),     # topology 'watch': a source at ~300 fps, so that the publisher has counted far by the time it is killed
         'kstep': draw(st.integers(0, 10**6)),
         'fault': draw(st.sampled_from(['kill', 'kill', 'kill', 'stall'])),
         'restart': draw(st.sampled_from([0, 300, 2000, 7000, None])),
@@ -208,14 +214,14 @@ def enum_cases(tier):
         base = {'topo': topo, 'required': topo in ('chain', 'rejoin'), 'work': [40, 10, 60], 'fault': 'kill', 'stall_ms': 6000,
                 'net': {'cls': 'lan', 'delays': [[50, 4000, 900], [12000, 50], [300]], 'conn': [1000, 20000], 'drops': [], 'ties': [0, 1], 'flush': True}, 'ipc': False}
         for chunk in range(16):
-            yield {**base, 'stride': stride, 'chunk': chunk, 'chunks': 16}
+            yield {**base, 'stride': stride, 'chunk': chunk, 'chunks': 16, 'fast_src': topo == 'watch'}
 
 
 def run_enum(case):
     """One topology, one 16th of its reference run: every stride-th scheduling step x every victim x restart in {0, 7000}."""
     nref = reference_steps(case)
     n = nontrivial = 0
-    nvict = 3 if case['topo'] in ('chain', 'tee') else 4
+    nvict = 2 if case['topo'] == 'watch' else 3 if case['topo'] in ('chain', 'tee') else 4
     lo, hi = nref * case['chunk'] // case['chunks'], nref * (case['chunk'] + 1) // case['chunks']
     first = (lo + case['stride'] - 1) // case['stride'] * case['stride']
     for kstep in range(first, hi, case['stride']):
